@@ -299,7 +299,7 @@ class _Rec:
 # Colang 1.0
 # ---------------------------------------------------------------------------------------------
 _V1_MODES = ["general", "passthrough", "dialog", "single_call", "passthrough_dialog"]
-_V1_TRANSPORTS = ["messages_fresh", "messages_shared", "state", "prompt", "messages_default_options", "input_only"]
+_V1_TRANSPORTS = ["messages_fresh", "messages_shared", "state", "prompt", "messages_default_options", "input_only", "state_after_options"]
 
 
 def _v1_config(order, styles, reject, mode):
@@ -402,6 +402,21 @@ def _v1_conversation(env, rec, app, cfg, transport, turns, rec_echo=None):
             want_reply = final
         env.verdicts = dict(verdicts)
         env.turn = k
+        if transport == "state_after_options" and k == 0:
+            # an earlier call on the same conversation state was made with every rail category switched off (no rail, no LLM call);
+            # the turns that follow pass the state back WITHOUT options: all configured rails are active again
+            env.queue = []
+            try:
+                r0 = env.call(lambda: app.generate_async(messages=[{"role": "user", "content": "earlier message, rails off"}], state={},
+                                                         options={"rails": {"input": False, "dialog": False, "output": False, "retrieval": False}}))
+                state = r0.state
+            except BaseException as ex:
+                if isinstance(ex, (KeyboardInterrupt, SystemExit)):
+                    raise
+                rec.n += 1
+                rec.fail("a call with all rail categories switched off completes", dict(colang="1.0", mode=mode, transport=transport),
+                         "raised %s: %s" % (type(ex).__name__, _short(str(ex), 300)))
+                return
         env.queue = list(completions)
         start = len(env.log)
         scenario = dict(colang="1.0", mode=mode, rails=["r%d/%s" % (i, styles.get(i, "A")) for i in order], reject=reject,
@@ -416,7 +431,7 @@ def _v1_conversation(env, rec, app, cfg, transport, turns, rec_echo=None):
         try:
             if transport == "prompt":
                 r = env.call(lambda: app.generate_async(prompt=text))
-            elif transport == "state":
+            elif transport in ("state", "state_after_options"):
                 r = env.call(lambda: app.generate_async(messages=[{"role": "user", "content": text}], state=state))
                 state = r.state
             elif transport == "messages_shared":
@@ -580,6 +595,8 @@ def _v1_checks(env, rng, tier):
                     first = ["messages_fresh"] + (["prompt"] if "prompt" in transports and nconf % 2 else [])
                     rest = [x for x in transports if x not in first]
                     transports = first + [rest[(nconf + mi + j) % len(rest)] for j in (0, 2)][:3 - len(first)]
+                    if nconf % 2 == 0 and "state_after_options" not in transports and order:
+                        transports.append("state_after_options")
                 for transport in transports:
                     # systematic part: every single-rail reject / rewrite, all-rewrite, rewrite-then-reject
                     force = []
